@@ -15,7 +15,7 @@ import (
 var c06OpNames = []string{
 	"Where", "Or", "Not", "Select", "Omit", "Order", "OrderDesc", "Limit", "Offset", "Group", "Having", "Joins",
 	"Distinct", "Unscoped", "Scopes", "Returning", "ClauseOrderBy", "Locking", "OnConflict", "Table", "Model", "SelectInvalid",
-	"WhereMap", "SelectArgs", "Preload", "InnerJoins",
+	"WhereMap", "SelectArgs", "Preload", "InnerJoins", "SelectInvalidSlice",
 }
 
 func c06Apply(db *gorm.DB, op int, x int, variant int) *gorm.DB {
@@ -69,6 +69,8 @@ func c06Apply(db *gorm.DB, op int, x int, variant int) *gorm.DB {
 		return db.Model(&T3{})
 	case "SelectInvalid":
 		return db.Select(42)
+	case "SelectInvalidSlice":
+		return db.Select([]string{"a"}, 42)
 	case "WhereMap":
 		return db.Where(map[string]interface{}{"b": x})
 	case "SelectArgs":
@@ -96,12 +98,17 @@ func c06Finish(db *gorm.DB, fin int) (string, []interface{}, error) {
 	case 4:
 		var out T3
 		res = db.First(&out)
+	case 5:
+		// Count called directly on the handle (which names its table itself)
+		var n int64
+		res = db.Count(&n)
 	}
 	stmt = res.Statement
 	return stmt.SQL.String(), stmt.Vars, res.Error
 }
 
 type c06Shape struct {
+	table  bool // the handle names its table (Table) before the prefix calls
 	ret    bool // dialect with RETURNING support
 	prefix int // op kind repeated three times before Session (-1: bare root handle)
 	via    int // how the reusable handle is obtained: 0 Session{}, 1 WithContext, 2 Debug, 3 Session{NewDB:false,Context}
@@ -111,10 +118,13 @@ type c06Shape struct {
 func c06Shapes(tier int) []c06Shape {
 	var r []c06Shape
 	for p := -1; p < len(c06OpNames); p++ {
-		if p >= 0 && (c06OpNames[p] == "SelectInvalid" || c06OpNames[p] == "Preload") {
+		if p >= 0 && (c06OpNames[p] == "SelectInvalid" || c06OpNames[p] == "Preload" || c06OpNames[p] == "SelectInvalidSlice") {
 			continue
 		}
 		r = append(r, c06Shape{prefix: p, fin: 0})
+		if p >= 0 && (c06OpNames[p] == "Order" || c06OpNames[p] == "Where" || c06OpNames[p] == "Select" || c06OpNames[p] == "Group") {
+			r = append(r, c06Shape{prefix: p, fin: 5, table: true}, c06Shape{prefix: p, fin: 5, table: true, via: 1})
+		}
 		if p >= 0 && (c06OpNames[p] == "Returning" || c06OpNames[p] == "Where" || c06OpNames[p] == "OnConflict") {
 			r = append(r, c06Shape{prefix: p, fin: 2, ret: true}, c06Shape{prefix: p, fin: 3, ret: true})
 		}
@@ -129,6 +139,9 @@ func N_C06_Siblings(tier int) int { return len(c06Shapes(tier)) }
 
 func c06Handle(root *gorm.DB, sh c06Shape, x int) *gorm.DB {
 	h := root
+	if sh.table {
+		h = h.Table("t3s")
+	}
 	if sh.prefix >= 0 {
 		for i := 0; i < 3; i++ {
 			h = c06Apply(h, sh.prefix, x+i, 0)
@@ -171,6 +184,9 @@ func H_C06_Siblings(shape int) {
 	case 3:
 		k1 = 21 // SelectInvalid (abandoned chain with an error)
 	}
+	if k1 == 21 && verifrt.Bool("invalid_slice_form") {
+		k1 = 26 // SelectInvalidSlice
+	}
 	if k1 < 0 {
 		k1 = 3
 	}
@@ -188,6 +204,8 @@ func H_C06_Siblings(shape int) {
 	sql0, vars0, err0 := c06Finish(h, sh.fin)
 	// and once more after everything was executed
 	sql2b, vars2b, _ := c06Finish(c06Apply(h, k2, y2, 2), sh.fin)
+	// a plain Find from the handle after all those finishers (Count, First … ran on it)
+	sql3, vars3, _ := c06Finish(h, 0)
 
 	// the same calls replayed alone, each in a fresh process state
 	alone := func(k int, y int, variant int) (string, []interface{}, error) {
@@ -214,6 +232,12 @@ func H_C06_Siblings(shape int) {
 	verifrt.Assert(sql0 == w0, "C06.handle-sql")
 	verifrt.Assert(verifrt.SameValue(vars0, wv0), "C06.handle-vars")
 	verifrt.Assert((err0 == nil) == (we0 == nil), "C06.handle-error")
+	w3, wv3, _ := func() (string, []interface{}, error) {
+		r := openDry(stubDialector{returning: sh.ret})
+		return c06Finish(c06Handle(r, sh, x), 0)
+	}()
+	verifrt.Assert(sql3 == w3, "C06.handle-find-after-finishers")
+	verifrt.Assert(verifrt.SameValue(vars3, wv3), "C06.handle-find-after-finishers")
 	verifrt.Assert(sql2b == w2, "C06.later-chain-sql")
 	verifrt.Assert(verifrt.SameValue(vars2b, wv2), "C06.later-chain-vars")
 }
